@@ -82,7 +82,19 @@ fn identity(p: &(Vec<u8>, Vec<u8>)) -> native_tls::Identity {
 }
 
 fn request(dict: &Arc<Dictionary>, hbh: u32, e2e: u32, marker: &str) -> DiameterMessage {
-    let mut m = DiameterMessage::new(CommandCode::CreditControl, ApplicationId::CreditControl, 0x80, hbh, e2e, dict.clone());
+    request_cmd(dict, 272, hbh, e2e, marker)
+}
+
+/// a request of the given command (Capabilities-Exchange and the other base commands under application 0)
+fn request_cmd(dict: &Arc<Dictionary>, cmd: u32, hbh: u32, e2e: u32, marker: &str) -> DiameterMessage {
+    let (cc, app) = match cmd {
+        257 => (CommandCode::CapabilitiesExchange, ApplicationId::Common),
+        280 => (CommandCode::DeviceWatchdog, ApplicationId::Common),
+        282 => (CommandCode::DisconnectPeer, ApplicationId::Common),
+        271 => (CommandCode::Accounting, ApplicationId::Accounting),
+        _ => (CommandCode::CreditControl, ApplicationId::CreditControl),
+    };
+    let mut m = DiameterMessage::new(cc, app, 0x80, hbh, e2e, dict.clone());
     m.add_avp(263, None, 0x40, UTF8String::new(marker).into());
     m
 }
@@ -430,6 +442,7 @@ pub async fn tls_cell(pki: Arc<Pki>, dict: Arc<Dictionary>, spec: Vec<String>) -
     let cert = kv.get("cert").cloned().unwrap_or_else(|| "good".into());
     let addr_kind = kv.get("addr").cloned().unwrap_or_else(|| "host".into());
     let cell_id = kv.get("id").cloned().unwrap_or_default();
+    let cmd: u32 = kv.get("cmd").and_then(|x| x.parse().ok()).unwrap_or(272);
     let id = if stls {
         Some(identity(match cert.as_str() {
             "wrongname" => &pki.wrongname,
@@ -463,7 +476,7 @@ pub async fn tls_cell(pki: Arc<Pki>, dict: Arc<Dictionary>, spec: Vec<String>) -
             tokio::spawn(async move {
                 DiameterClient::handle(&mut handler, d2).await;
             });
-            if let Ok(Ok(fut)) = tokio::time::timeout(wait, client.send_message(request(&dict, 42, 43, &marker))).await {
+            if let Ok(Ok(fut)) = tokio::time::timeout(wait, client.send_message(request_cmd(&dict, cmd, 42, 43, &marker))).await {
                 if let Ok(Ok(ans)) = tokio::time::timeout(wait, fut).await {
                     let m = ans.get_avp(263).and_then(|a| a.get_utf8string().map(|s| s.value().to_string())).unwrap_or_default();
                     answered = ans.get_hop_by_hop_id() == 42 && m == marker;
@@ -650,6 +663,48 @@ pub async fn client_tcp(dict: Arc<Dictionary>, spec: Vec<String>) -> String {
 }
 
 /// runs a batch of real-socket scenarios concurrently on a multi-threaded runtime; results in input order
+/// `tlsq <cell>;<cell>;...` (each cell `k=v,k=v,...`): the cells one after the other in a FRESH process, so that whatever
+/// the library keeps per process (a cached connector, a global flag) is in the state the sequence itself produced.
+/// answer: the cells' answers joined by ` ; `
+async fn tls_sequence_in_child(cells: String) -> String {
+    let exe = match std::env::current_exe() {
+        Ok(e) => e,
+        Err(_) => return "bad-op".into(),
+    };
+    let ca = std::env::var("VERIF_CA_FILE").unwrap_or_else(|_| "/verif/work/tlsq".into());
+    static N: std::sync::atomic::AtomicUsize = std::sync::atomic::AtomicUsize::new(0);
+    let k = N.fetch_add(1, Ordering::SeqCst);
+    let ca_child = format!("{}.q{}.ca.pem", ca.trim_end_matches(".ca.pem"), k);
+    let out = tokio::time::timeout(Duration::from_secs(120), tokio::process::Command::new(exe).arg("tlsq").arg(&cells).arg(&ca_child).stdin(std::process::Stdio::null()).stderr(std::process::Stdio::null()).kill_on_drop(true).output()).await;
+    let _ = std::fs::remove_file(&ca_child);
+    match out {
+        Ok(Ok(o)) if o.status.success() => String::from_utf8_lossy(&o.stdout).trim().to_string(),
+        Ok(Ok(_)) => "abort".into(),
+        _ => "hang".into(),
+    }
+}
+
+/// child side of `tlsq`
+pub fn tls_sequence_child(cells: &str, ca_path: &str, builtin_xml: &str) {
+    if !ca_path.ends_with(".ca.pem") {
+        std::process::exit(2);
+    }
+    std::env::set_var("SSL_CERT_FILE", ca_path);
+    let pki = Arc::new(make_pki());
+    std::fs::write(ca_path, &pki.ca_pem).expect("ca file");
+    let dict = Arc::new(Dictionary::new(&[builtin_xml]));
+    let rt = tokio::runtime::Builder::new_multi_thread().worker_threads(4).enable_all().build().unwrap();
+    let res: Vec<String> = rt.block_on(async move {
+        let mut out = vec![];
+        for c in cells.split(';') {
+            let toks: Vec<String> = c.split(',').map(|x| x.to_string()).collect();
+            out.push(tls_cell(pki.clone(), dict.clone(), toks).await);
+        }
+        out
+    });
+    println!("{}", res.join(" ; "));
+}
+
 pub fn run_batch(rt: &tokio::runtime::Runtime, pki: Arc<Pki>, dict: Arc<Dictionary>, lines: Vec<String>) -> Vec<String> {
     rt.block_on(async move {
         let mut hs = vec![];
@@ -660,6 +715,7 @@ pub fn run_batch(rt: &tokio::runtime::Runtime, pki: Arc<Pki>, dict: Arc<Dictiona
                 match toks[0].as_str() {
                     "lsn" => listener_scenario(pki, dict, toks[1..].to_vec()).await,
                     "tls" => tls_cell(pki, dict, toks[1..].to_vec()).await,
+                    "tlsq" => tls_sequence_in_child(toks[1..].join(" ")).await,
                     "ctcp" => client_tcp(dict, toks[1..].to_vec()).await,
                     _ => "bad-op".to_string(),
                 }
